@@ -421,3 +421,7 @@ _add(
     "C04",
     m("partial-task-valid-ignores-args", T, "        return self.task.is_valid() and get_type_registry().is_valid_nested(\n            (self.args, self.kwargs)\n        )", "        return self.task.is_valid()", "C04.5"),
 )
+_add(
+    "C20",
+    m("collapse-onto-prov-false-twin", S, "        if pending_job and job.recording_provenance() and not pending_job.recording_provenance():\n            # A job that does not record provenance never gets a call node, so it has no\n            # call_hash that a provenance-recording duplicate could share.\n            return None\n", "", "C20.8"),
+)
